@@ -574,7 +574,10 @@ func runUDPClient(phases []phase) error {
 				c++
 				if c == closesNow+1 {
 					refused := e.err != nil && (errors.Is(e.err, syscall.ECONNREFUSED) || strings.Contains(e.err.Error(), "refused"))
-					if !refused && !(isTimeout(e.err) && stalls.StalledBetween(vanishedAt, e.t)) {
+					// (the refusal reaches whichever of the socket's users comes next: when the node's writer - which does
+					// not act on write errors - takes it every time, the reader sees only silence, and after a whole idle
+					// timeout of it the timeout is a true cause as well)
+					if !refused && !(isTimeout(e.err) && (stalls.StalledBetween(vanishedAt, e.t) || e.t.Sub(vanishedAt) >= c14Idle*8/10)) {
 						return fmt.Errorf("phase %d: the peer's socket vanished and the node's datagrams were refused, but the close event (%v later) says: %v (want the cause: connection refused)", pi, e.t.Sub(vanishedAt), e.err)
 					}
 				}
